@@ -269,20 +269,20 @@ Lemma run_profile_fixed cfg o p s :
 Proof. intros H K. rewrite main_eq. cbn [snd gp]. unfold gp_after. rewrite H, K. destruct (gp_setup o (gp s)). cbn. auto. Qed.
 
 Lemma run_timers cfg o p s :
-  (fx_timer cfg = true \/ o_interval o <= 0) ->
+  (fx_timer cfg = true \/ o_interval o = 0) ->
   timers (snd (main cfg o p s)) = timers s.
 Proof.
   intros H. rewrite main_eq. cbn [snd timers]. unfold timers_after, timed. rewrite rt_leftover_none.
-  destruct (0 <? o_interval o) eqn:T; destruct (ran o); cbn [andb]; try lia.
+  destruct (Z.eqb_spec (o_interval o) 0) as [T|T]; destruct (ran o); cbn [andb negb]; try lia.
   all: destruct H as [H|H]; [rewrite H; lia|lia].
 Qed.
 
 Lemma run_timers_leak cfg o p s :
-  fx_timer cfg = false -> 0 < o_interval o -> ran o = true ->
+  fx_timer cfg = false -> o_interval o <> 0 -> ran o = true ->
   timers (snd (main cfg o p s)) = timers s + 1.
 Proof.
   intros H T R. rewrite main_eq. cbn [snd timers]. unfold timers_after, timed. rewrite H, R, rt_leftover_none.
-  destruct (0 <? o_interval o) eqn:E; cbn [andb]; lia.
+  destruct (Z.eqb_spec (o_interval o) 0) as [E|E]; cbn [andb negb]; [contradiction|lia].
 Qed.
 
 (* every repair there is (the model's flags except the two that do not concern C19's clauses) *)
@@ -334,7 +334,7 @@ Fixpoint no_exception (cfg : Fixes) (s : St) (rs : list run) : bool :=
   | (o, p) :: t => match fst (main cfg o p s) with Returned => true | Raised => false end
                    && no_exception cfg (snd (main cfg o p s)) t
   end.
-Definition no_interval (rs : list run) : bool := forallb (fun r => o_interval (fst r) <=? 0) rs.
+Definition no_interval (rs : list run) : bool := forallb (fun r => o_interval (fst r) =? 0) rs.
 
 Lemma no_exception_restoring cfg rs : forall s, no_exception cfg s rs = true -> all_restoring cfg s rs = true.
 Proof.
@@ -406,7 +406,7 @@ Proof.
   induction rs as [|[o p] t IH]; intros s H; [reflexivity|].
   cbn [exec_runs]. rewrite IH.
   - apply run_timers. destruct H as [H|H]; [left; exact H|right].
-    cbn [no_interval forallb fst] in H. apply andb_prop in H as [H _]. lia.
+    cbn [no_interval forallb fst] in H. apply andb_prop in H as [H _]. apply Z.eqb_eq in H. exact H.
   - destruct H as [H|H]; [left; exact H|right].
     cbn [no_interval forallb] in H. apply andb_prop in H as [_ H]. exact H.
 Qed.
@@ -735,6 +735,14 @@ Lemma unrepaired_refuted : ~ C19_statement unrepaired.
 Proof.
   intros H. specialize (H st0 [(opts0, returns)] eq_refl eq_refl). vm_compute in H. discriminate.
 Qed.
+
+(* -i takes any integer: a negative one still creates the timer (clamped to 1 s) - and stops it *)
+Definition opts_negative : Opts := mkOpts true false false None [] (-2) false false false ["prog.py"] "" "/T".
+Lemma negative_interval_timer :
+  timed opts_negative = true
+  /\ timers (snd (main current opts_negative returns st0)) = timers st0
+  /\ timers (snd (main unrepaired opts_negative returns st0)) = timers st0 + 1.
+Proof. vm_compute. repeat split; reflexivity. Qed.
 
 (* ---- non-vacuity ---------------------------------------------------------------------------- *)
 Definition opts_module : Opts := mkOpts true false true (Some "/T/setupd") [] 1 false false false ["mod"; "x"] "" "/T".
